@@ -111,9 +111,11 @@ def worker_main(prop: str, seed: int, tier: str, ks: list[int], budget: float, o
                 rng = core.seg_rng(seed, prop, tier, k)
                 g = drv.gen(rng, k, tier)
                 ctx = core.Ctx(known, collect)
+                ts = time.monotonic()
                 res = exec_segment(world, ctx, g["cfg"], g["ops"])
                 faulthandler.cancel_dump_traceback_later()
                 res["k"] = k
+                res["t"] = round(time.monotonic() - ts, 2)   # diagnostics only, never part of the event log
                 if res["status"] == "ok":
                     collect.nontrivial.update(ctx.nontrivial)
                     maxops = getattr(drv, "SAMPLE_MAXOPS", 14)
